@@ -406,7 +406,7 @@ pub fn run(ctx: &'static Ctx) -> i32 {
     );
     // all strings over a small numeric alphabet that are NRf literals
     let alpha: &[u8] = b"+-0159.E";
-    let n = ctx.tier.pick(6u32, 7u32);
+    let n = ctx.tier.pick(7u32, 9u32);
     let ns = count_upto(alpha.len() as u64, n);
     let accs2 = par_sweep(
         ctx,
@@ -418,7 +418,7 @@ pub fn run(ctx: &'static Ctx) -> i32 {
         },
         Acc::default,
         |i, acc: &mut Acc| {
-            let mut buf = [0u8; 8];
+            let mut buf = [0u8; 12];
             let l = nth_string(alpha, i, &mut buf);
             let lit = &buf[..l];
             if parse_nrf(lit).is_some() {
@@ -427,18 +427,41 @@ pub fn run(ctx: &'static Ctx) -> i32 {
         },
         |i| json!({"kind": "short-index", "index": i}),
     );
+    // a second alphabet with every digit
+    let alpha_b: &[u8] = b"-.E0123456789";
+    let nb = ctx.tier.pick(5u32, 7u32);
+    let nsb = count_upto(alpha_b.len() as u64, nb);
+    let accs3 = par_sweep(
+        ctx,
+        nsb,
+        SweepOpts {
+            name: "C07 all short literals over all digits",
+            chunk: 1024,
+            hang_secs: 30,
+        },
+        Acc::default,
+        |i, acc: &mut Acc| {
+            let mut buf = [0u8; 12];
+            let l = nth_string(alpha_b, i, &mut buf);
+            let lit = &buf[..l];
+            if parse_nrf(lit).is_some() {
+                check_literal(ctx, nl + ns + i, lit, acc, false);
+            }
+        },
+        |i| json!({"kind": "short-index-b", "index": i}),
+    );
     let mut acc = Acc::default();
-    for a in accs.into_iter().chain(accs2) {
+    for a in accs.into_iter().chain(accs2).chain(accs3) {
         acc.evals += a.evals;
         acc.near_bound_or_half += a.near_bound_or_half;
         acc.range_errors += a.range_errors;
         acc.ok_values += a.ok_values;
     }
-    fixed_table(ctx, nl + ns, &mut acc);
+    fixed_table(ctx, nl + ns + nsb, &mut acc);
     let mut c = cov();
     c.insert("evaluations".into(), json!(acc.evals));
     c.insert("distinct_nontrivial".into(), json!(acc.near_bound_or_half));
-    c.insert("rule".into(), json!(format!("literal grammar sign x integer part x fraction x exponent ({nl} literals: signs none/+/-; integer parts '',0,00,1,7,12 and every type bound -1/+0/+1/+2; fractions none, '.', .0, .4, .49999, .49999999, .4999999999, .4999999999999999999, .5, .50, .50000001, .500000000000000001, .6, .9; exponents none, E0, e+0, E1, E-1, E2, e-2, E18, E19, E20, E-400, E400; plus bounds written with shifted decimal points) and every NRf literal among the {ns} strings of length <= {n} over `+-0159.E`, x 10 integer targets + bool, through TryFrom<Token> and through Parameters::next_data in a real message; plus non-decimal literals (#H/#Q/#B of 0, 1, every bound, bound+1, 2^64-1, 2^64), MIN/MAX keywords in 8 spellings, near-miss keywords and every other element type. Oracle: exact decimal arithmetic (refmodel/decnum.rs): Ok(r) requires |r - x| <= 1/2 + delta, where delta is the distance from x to the farther of the two adjacent floats of the intermediate type that bracket it (0 if x is representable or the spelling is plain NR1); -222 requires that some such integer is unrepresentable. Distinct non-trivial = literals at a half-integer or next to a type bound")));
+    c.insert("rule".into(), json!(format!("literal grammar sign x integer part x fraction x exponent ({nl} literals: signs none/+/-; integer parts '',0,00,1,7,12 and every type bound -1/+0/+1/+2; fractions none, '.', .0, .4, .49999, .49999999, .4999999999, .4999999999999999999, .5, .50, .50000001, .500000000000000001, .6, .9; exponents none, E0, e+0, E1, E-1, E2, e-2, E18, E19, E20, E-400, E400; plus bounds written with shifted decimal points) and every NRf literal among the {ns} strings of length <= {n} over `+-0159.E` and among the {nsb} strings of length <= {nb} over `-.E0123456789`, x 10 integer targets + bool, through TryFrom<Token> and through Parameters::next_data in a real message; plus non-decimal literals (#H/#Q/#B of 0, 1, every bound, bound+1, 2^64-1, 2^64), MIN/MAX keywords in 8 spellings, near-miss keywords and every other element type. Oracle: exact decimal arithmetic (refmodel/decnum.rs): Ok(r) requires |r - x| <= 1/2 + delta, where delta is the distance from x to the farther of the two adjacent floats of the intermediate type that bracket it (0 if x is representable or the spelling is plain NR1); -222 requires that some such integer is unrepresentable. Distinct non-trivial = literals at a half-integer or next to a type bound")));
     c.insert("exhaustive".into(), json!(true));
     c.insert("conversions_ok".into(), json!(acc.ok_values));
     c.insert("conversions_range_error".into(), json!(acc.range_errors));
